@@ -28,7 +28,7 @@ def configs(tier, seed):
                     for load in ("idle", "busy"):
                         cfgs.append(dict(n=N, k=k, action="signal", others=others, ostate=ostate, load=load, clock="system", sig=int(sig), cycles=0, victim=victim))
     # ---- sampled: larger programs, Tsc clock, more threads, up to 5 cycles
-    extra = 250 if tier == "quick" else 6000
+    extra = 1200 if tier == "quick" else 12000
     for _ in range(extra):
         n = rnd.randint(7, 24)
         action = rnd.choice(["stop", "exit", "return", "cycles", "signal", "signal"])
